@@ -425,6 +425,18 @@ func genC14Sim(t *rapid.T) streamsCase {
 		}
 		c.Streams = append(c.Streams, st)
 	}
+	if rapid.IntRange(0, 2).Draw(t, "cbflush") == 0 {
+		// callback goroutines are the one kind of active user the teardown waits for: a server callback that answers (Flush) while
+		// the connection goes away under it. The client closes its session from the thread that flushed (no call of its own is active).
+		var st sStream
+		n := rapid.SampledFrom([]int{1, 10, 65}).Draw(t, "n")
+		st.C.Prog = []sOp{{K: "flush", N: n}, {K: "yield"}, {K: "sclose"}}
+		st.S.CB = []cbPolicy{{Take: rapid.SampledFrom([]int{0, 1}).Draw(t, "take")}}
+		st.S.AckAt = rapid.IntRange(1, n).Draw(t, "ack_at")
+		c.Streams = []sStream{st}
+		c.Sched = genSchedPlanHot(t, 10, 1500, 3, 150)
+		return c
+	}
 	// the closer acts when every reader is blocked in its wait (an *active* call racing the teardown is known finding D20)
 	closer := []sOp{{K: "quiet"}, {K: "sclose"}}
 	if os.Getenv("VERIF_PROBE_D20") != "" {
